@@ -377,6 +377,8 @@ func checkC05(p *Prog, r *Report) {
 	}
 
 	checkC05Server(p, r, rSrc, rPins, rPort)
+	checkC05UserAddrs(p, r, rPort)
+	checkC05MessagesWhole(p, r, r.Rule("messages-whole", "the server's printf-style senders put the whole formatted message on the operator channel (the one-liners are one message)"))
 	checkPinTemplate(p, r, rTmpl)
 }
 
@@ -889,4 +891,228 @@ func allAccepted(rs []Root) bool {
 		}
 	}
 	return 0 != len(rs)
+}
+
+// checkC05MessagesWhole: what the server's printf-style senders put on the
+// operator channel is the whole formatted message.  The one-liners travel as
+// one message (all addresses, each with its pin): a sender which cuts messages
+// to a length shows a pin cut short, or not all one-liners.
+func checkC05MessagesWhole(p *Prog, r *Report, ru *Rule) {
+	n := 0
+	for _, fn := range p.Funcs() {
+		if nil == fn.Pkg || !strings.HasSuffix(fn.Pkg.Pkg.Path(), "/"+hsrvPkg) || nil == fn.Signature.Recv() || !fn.Signature.Variadic() {
+			continue
+		}
+		eachInstr(fn, func(i ssa.Instruction) {
+			var sent ssa.Value
+			switch t := i.(type) {
+			case *ssa.Send:
+				sent = t.X
+			case *ssa.Select:
+				for _, st := range t.States {
+					if types.SendOnly == st.Dir {
+						sent = st.Send
+					}
+				}
+			}
+			if nil == sent || !typeIs(sent.Type(), ModPath+"/lib/opshell", "CLine") {
+				return
+			}
+			line := structLitField(sent, "Line")
+			if nil == line {
+				return
+			}
+			n++
+			c := fnName(fn) + ":message-whole"
+			var cut ssa.Value
+			seen := map[ssa.Value]bool{}
+			var walk func(v ssa.Value, depth int)
+			walk = func(v ssa.Value, depth int) {
+				v = stripConv(v, false)
+				if nil == v || seen[v] || depth > 16 {
+					return
+				}
+				seen[v] = true
+				switch t := v.(type) {
+				case *ssa.Phi:
+					for _, e := range t.Edges {
+						walk(e, depth+1)
+					}
+				case *ssa.BinOp:
+					walk(t.X, depth+1)
+					walk(t.Y, depth+1)
+				case *ssa.Slice:
+					if nil != t.High || nil != t.Low {
+						cut = t
+					}
+					walk(t.X, depth+1)
+				case *ssa.Convert:
+					walk(t.X, depth+1)
+				case *ssa.UnOp:
+					if token.MUL == t.Op {
+						walk(resolveCell(t), depth+1)
+					}
+				case *ssa.Call:
+					if strings.HasPrefix(calleeName(t.Common()), "fmt.Sprint") {
+						return
+					}
+					for _, a := range t.Common().Args {
+						if b, ok := a.Type().Underlying().(*types.Basic); ok && 0 != b.Info()&types.IsString {
+							walk(a, depth+1)
+						}
+					}
+				}
+			}
+			walk(line, 0)
+			if nil != cut {
+				ru.Bad(c, posOf(cut.(ssa.Instruction)), "the message %s sends to the operator is cut (a slice of the formatted text): the one-liners travel as one message, so a pin can be shown cut short or one-liners left out", fnName(fn))
+			} else {
+				ru.OK(c, posOf(i), "the Line sent is the formatted message, nowhere sliced")
+			}
+		})
+	}
+	if n < 2 {
+		ru.Unproven("hsrv:senders", token.NoPos, "%d printf-style senders on the operator channel found in hsrv, at least 2 expected", n)
+	}
+}
+
+// checkC05UserAddrs: a callback address the user gave reaches the server as
+// given.  The server decides "has its own port" with net.SplitHostPort on what
+// it receives; if main has already dropped an explicit port (":443" tidied
+// away, say) the bound port is printed on an address which had one.
+func checkC05UserAddrs(p *Prog, r *Report, ru *Rule) {
+	hnew := p.Func(hsrvPkg, "", "New")
+	if nil == hnew {
+		ru.Unproven("hsrv.New", token.NoPos, "not found")
+		return
+	}
+	var newCall *ssa.Call
+	for _, fn := range p.Funcs() {
+		if nil == fn.Pkg || ModPath != fn.Pkg.Pkg.Path() {
+			continue
+		}
+		eachInstr(fn, func(i ssa.Instruction) {
+			if c, ok := i.(*ssa.Call); ok && c.Common().StaticCallee() == hnew {
+				newCall = c
+			}
+		})
+	}
+	if nil == newCall {
+		ru.Unproven("main→hsrv.New", token.NoPos, "call not found")
+		return
+	}
+	var cell *ssa.Alloc
+	for k, pa := range hnew.Params {
+		if sl, ok := pa.Type().Underlying().(*types.Slice); ok && types.Identical(sl.Elem(), types.Typ[types.String]) {
+			if u, isLoad := stripConv(newCall.Common().Args[k], false).(*ssa.UnOp); isLoad && token.MUL == u.Op {
+				cell, _ = resolveFree(u.X).(*ssa.Alloc)
+			}
+		}
+	}
+	if nil == cell {
+		/* Not kept in a captured variable: nothing gathers them in a callback. */
+		return
+	}
+	top := newCall.Parent()
+	n := 0
+	for _, fn := range withAnons(top) {
+		eachInstr(fn, func(i ssa.Instruction) {
+			st, ok := i.(*ssa.Store)
+			if !ok || resolveFree(st.Addr) != ssa.Value(cell) {
+				return
+			}
+			ap, ok := stripConv(st.Val, false).(*ssa.Call)
+			if !ok {
+				return
+			}
+			if b, isB := ap.Common().Value.(*ssa.Builtin); !isB || "append" != b.Name() || 2 != len(ap.Common().Args) {
+				return
+			}
+			n++
+			c := fmt.Sprintf("%s:callback-address#%d", fnName(fn), n)
+			var bad ssa.Value
+			why := ""
+			seen := map[ssa.Value]bool{}
+			var walk func(v ssa.Value, depth int)
+			walk = func(v ssa.Value, depth int) {
+				v = stripConv(v, false)
+				if nil == v || seen[v] || depth > 16 || nil != bad {
+					return
+				}
+				seen[v] = true
+				switch t := v.(type) {
+				case *ssa.Phi:
+					for _, e := range t.Edges {
+						walk(e, depth+1)
+					}
+				case *ssa.UnOp:
+					if token.MUL == t.Op {
+						if rc := resolveCell(t); rc != ssa.Value(t) {
+							walk(rc, depth+1)
+						}
+					}
+				case *ssa.Extract:
+					tc, ok := t.Tuple.(*ssa.Call)
+					if !ok {
+						return
+					}
+					switch calleeName(tc.Common()) {
+					case "net.SplitHostPort", "strings.Cut", "strings.CutSuffix":
+						if 0 == t.Index {
+							bad, why = t, "the host part alone (of "+calleeName(tc.Common())+"): an explicit port is dropped"
+						}
+					}
+				case *ssa.Call:
+					switch n := calleeName(t.Common()); {
+					case "net.JoinHostPort" == n:
+						pe, ok := stripConv(t.Common().Args[1], false).(*ssa.Extract)
+						if ok {
+							if tc, isCall := pe.Tuple.(*ssa.Call); isCall && "net.SplitHostPort" == calleeName(tc.Common()) && 1 == pe.Index {
+								return
+							}
+						}
+						bad, why = t, "joined with a port which is not the address's own"
+					case strings.HasPrefix(n, "strings."):
+						if 0 != len(t.Common().Args) {
+							walk(t.Common().Args[0], depth+1)
+						}
+					}
+				}
+			}
+			for _, e := range appendedElems(ap.Common().Args[1]) {
+				walk(e, 0)
+			}
+			if nil != bad {
+				ru.Bad(c, posOf(bad.(ssa.Instruction)), "the callback address handed to the server is %s; the server then takes it for an address without a port and prints the bound port on it", why)
+			} else {
+				ru.OK(c, posOf(i), "appended as given")
+			}
+		})
+	}
+}
+
+// appendedElems: the values stored into the variadic array behind the second
+// argument of an append (or that argument itself when it is another slice).
+func appendedElems(v ssa.Value) []ssa.Value {
+	sl, ok := v.(*ssa.Slice)
+	if !ok {
+		return []ssa.Value{v}
+	}
+	al, ok := sl.X.(*ssa.Alloc)
+	if !ok {
+		return []ssa.Value{v}
+	}
+	var out []ssa.Value
+	for _, ref := range *al.Referrers() {
+		ia, ok := ref.(*ssa.IndexAddr)
+		if !ok {
+			continue
+		}
+		for _, r2 := range *ia.Referrers() {
+			if st, ok := r2.(*ssa.Store); ok && st.Addr == ssa.Value(ia) {
+				out = append(out, st.Val)
+			}
+		}
+	}
+	return out
 }
